@@ -3,6 +3,9 @@
 package frame
 
 import (
+	"net/netip"
+	"sync"
+
 	vf "github.com/mycoria/mycoria/zzvf"
 )
 
@@ -11,7 +14,24 @@ import (
 func VfC17Clone() {
 	b := NewFrameBuilder()
 	f := vfBuilt(b)
+	if vf.Param("margins") == 1 {
+		// the builder's margins may change between building a frame and cloning it
+		o2, h2 := vf.Int(), vf.Int()
+		vf.Assume(o2 >= 0 && o2 <= 100 && h2 >= 0 && h2 <= 100)
+		b.SetFrameMargins(o2, h2)
+	} else if vf.Choose(2) == 1 {
+		b.SetFrameMargins(2, 0) // as for frames read on a link without link encryption
+	}
+	f.SetRecvLink(&vfLink{id: 7})
 	c := f.Clone().(*FrameV1)
+	vf.Assert(c.recvLink == f.recvLink, "clone-recv-link")
+	// the clone offers the same room around the frame as the original (the link writer needs its margins)
+	mx, my := vf.Int(), vf.Int()
+	vf.Assume(mx >= 0 && mx <= 100 && my >= 0 && my <= 100)
+	fd, e1 := f.FrameDataWithMargins(mx, my)
+	cd, e2 := c.FrameDataWithMargins(mx, my)
+	vf.Assert((e1 == nil) == (e2 == nil), "clone-has-different-room")
+	vf.Assert(len(fd) == len(cd), "clone-margin-data-length")
 	vf.Assert(len(c.data) == len(f.data), "clone-length")
 	vf.Assert(c.messageIndex == f.messageIndex && c.authIndex == f.authIndex && c.appendixIndex == f.appendixIndex, "clone-indices")
 	vf.Assert(c.src == f.src && c.dst == f.dst, "clone-addresses")
@@ -58,5 +78,140 @@ func VfC17Release() {
 	vf.Assert(c.data[q] == old, "release-changed-other-frame")
 	vf.Assert(f.data == nil && f.pooledSlice == nil && !f.src.IsValid() && !f.dst.IsValid(), "release-left-state")
 	vf.Assert(f.recvLink == nil, "release-left-link")
+	vf.Reach("done")
+}
+
+
+// ---- adversarial pool: Get hands out a fresh object or ANY object put back earlier, as it was left ----
+
+var vfPools = map[*sync.Pool][]any{}
+
+func vfPoolPut(p *sync.Pool, x any) { vfPools[p] = append(vfPools[p], x) }
+
+func vfPoolGet(p *sync.Pool) any {
+	l := vfPools[p]
+	k := vf.Choose(len(l) + 1)
+	if k == len(l) {
+		return p.New()
+	}
+	x := l[k]
+	vfPools[p] = append(l[:k:k], l[k+1:]...)
+	return x
+}
+
+type vfSlot struct {
+	f    *FrameV1
+	want []byte // expected frame bytes
+	src  [16]byte
+	dst  [16]byte
+	link LinkAccessor
+}
+
+func vfSmallArgs() (src, dst [16]byte, msg, apx []byte) {
+	copy(src[:], vf.Bytes(16))
+	copy(dst[:], vf.Bytes(16))
+	nm, na := vf.Int(), vf.Int()
+	vf.Assume(nm >= 0 && nm <= 40 && na >= 0 && na <= 40) // nm == 0: the builder refuses an empty message
+	return src, dst, vf.Bytes(nm), vf.Bytes(na)
+}
+
+func (s *vfSlot) record() {
+	s.want = make([]byte, len(s.f.data))
+	copy(s.want, s.f.data)
+	s.src, s.dst = s.f.SrcIP().As16(), s.f.DstIP().As16()
+	s.link = s.f.recvLink
+}
+
+// VfC17Recycle: K operations (new, parse, clone, reply, release) on two frame
+// slots of one builder whose pools hand back released objects in any order.
+// After every operation each live frame still has exactly the bytes,
+// addresses and link it was given, and no two live frames share a buffer.
+func VfC17Recycle() {
+	K := vf.Param("K")
+	b := NewFrameBuilder()
+	b.SetFrameMargins(12, 16)
+	var slots [2]vfSlot
+	for k := 0; k < K; k++ {
+		i := vf.Choose(2)
+		s, o := &slots[i], &slots[1-i]
+		switch vf.Choose(5) {
+		case 0: // new
+			vf.Assume(s.f == nil)
+			src, dst, msg, apx := vfSmallArgs()
+			f, err := b.NewFrameV1(netip.AddrFrom16(src), netip.AddrFrom16(dst), MessageType(vf.U8()), nil, msg, apx)
+			if err != nil {
+				vf.Reach("new-refused")
+				continue // a refused build must leave the pools in a sane state
+			}
+			vf.Assert(f.recvLink == nil, "new-frame-has-stale-link")
+			s.f = f
+			s.record()
+			vf.Assert(s.src == src && s.dst == dst, "new-frame-addresses")
+		case 1: // parse wire bytes into a pooled slice (as the link reader does)
+			vf.Assume(s.f == nil)
+			n := vf.Int()
+			vf.Assume(n >= 68 && n <= 120)
+			wire := vf.Bytes(n)
+			vf.Assume(wire[0] == 1 && wire[48] == 0)
+			ps := b.GetPooledSlice(n + 12 + 16)
+			copy(ps[12:], wire)
+			fr, err := b.ParseFrame(ps[12:12+n], ps, 12)
+			if err != nil {
+				b.ReturnPooledSlice(ps)
+				continue
+			}
+			f := fr.(*FrameV1)
+			vf.Assert(f.recvLink == nil, "parsed-frame-has-stale-link")
+			var ws, wd [16]byte
+			copy(ws[:], wire[16:32])
+			copy(wd[:], wire[32:48])
+			f.SetRecvLink(&vfLink{id: k + 1})
+			s.f = f
+			s.record()
+			vf.Assert(s.src == ws && s.dst == wd, "parsed-frame-addresses")
+			q := vf.Int()
+			vf.Assume(q >= 0 && q < n)
+			vf.Assert(f.data[q] == wire[q], "parsed-frame-bytes")
+		case 2: // clone the other slot's frame into this slot
+			vf.Assume(s.f == nil && o.f != nil)
+			s.f = o.f.Clone().(*FrameV1)
+			s.record()
+			vf.Assert(len(s.want) == len(o.want) && s.src == o.src && s.dst == o.dst && s.link == o.link, "clone-fields")
+		case 3: // turn into a reply
+			vf.Assume(s.f != nil)
+			_, _, msg, apx := vfSmallArgs()
+			osrc, odst := s.src, s.dst
+			if len(msg) == 0 || s.f.Reply(nil, msg, apx) != nil {
+				vf.Stop()
+			}
+			s.record()
+			vf.Assert(s.src == odst && s.dst == osrc, "reply-addresses")
+			vf.Assert(s.f.recvLink == nil, "reply-keeps-link")
+			m := vf.Int()
+			vf.Assume(m >= 0 && m < len(msg))
+			vf.Assert(s.f.MessageData()[m] == msg[m], "reply-message")
+		default: // release
+			vf.Assume(s.f != nil)
+			s.f.ReturnToPool()
+			s.f = nil
+		}
+		// every live frame is exactly what it was
+		for j := range slots {
+			t := &slots[j]
+			if t.f == nil {
+				continue
+			}
+			vf.Assert(len(t.f.data) == len(t.want), "live-frame-length-changed")
+			q := vf.Int()
+			vf.Assume(q >= 0 && q < len(t.want))
+			vf.Assert(t.f.data[q] == t.want[q], "live-frame-bytes-changed")
+			vf.Assert(t.f.SrcIP().As16() == t.src && t.f.DstIP().As16() == t.dst, "live-frame-addresses-changed")
+			vf.Assert(t.f.recvLink == t.link, "live-frame-link-changed")
+		}
+		if slots[0].f != nil && slots[1].f != nil {
+			vf.Assert(!vf.SameObject(slots[0].f.pooledSlice, slots[1].f.pooledSlice), "live-frames-share-buffer")
+			vf.Assert(slots[0].f != slots[1].f, "live-frames-share-struct")
+		}
+	}
 	vf.Reach("done")
 }
